@@ -14,12 +14,17 @@ names = sorted(d for d in os.listdir(os.path.join(V, "seeded")) if os.path.isdir
 if args:
     names = [n for n in names if any(n.startswith(a) for a in args)]
 
+# besides the target check, the checks whose subject is adjacent (a complete 60 x 20 table costs a day of CPU time)
+NEIGHBOURS = {"C01": ["C02", "C05"], "C02": ["C01", "C12"], "C03": ["C04", "C05", "C19"], "C04": ["C03"], "C05": ["C01", "C03"], "C06": ["C10", "C12", "C19"], "C07": ["C08", "C09", "C10", "C17"],
+              "C08": ["C07", "C17"], "C09": ["C07", "C10", "C20"], "C10": ["C06", "C09", "C17"], "C11": ["C10", "C13"], "C12": ["C06", "C07", "C11"], "C13": ["C11", "C14"], "C14": ["C13", "C17"],
+              "C15": ["C16", "C20"], "C16": ["C01", "C15"], "C17": ["C10", "C14"], "C18": ["C01", "C10", "C11"], "C19": ["C06", "C18"], "C20": ["C09", "C15"]}
 def one(name):
     d = os.path.join(V, "seeded", name)
     res = "/tmp/seedfinal/" + name
     os.makedirs(res, exist_ok=True)
-    subprocess.run([os.path.join(V, "tools", "eval_seeded.sh"), d, res, "all"], stdout=subprocess.DEVNULL, stderr=subprocess.DEVNULL)
     old = json.load(open(os.path.join(d, "meta.json")))
+    ids = ["all"] if os.environ.get("SEED_ALL_CHECKS") else [old["breaks_property"]] + NEIGHBOURS.get(old["breaks_property"], [])
+    subprocess.run([os.path.join(V, "tools", "eval_seeded.sh"), d, res] + ids, stdout=subprocess.DEVNULL, stderr=subprocess.DEVNULL)
     conf = {"demo_on_changed_tree_exit": None, "demo_on_unchanged_tree_exit": None, "repository_tests_on_changed_tree": None}
     checks = {}
     for l in open(os.path.join(res, "summary.txt")).read().splitlines():
@@ -37,7 +42,7 @@ def one(name):
     meta = {
         "name": name, "round": int(rnd[1]), "breaks_property": prop, "summary": old["summary"], "needs_to_manifest": old["needs_to_manifest"],
         "origin": old["origin"], "confirmed_by_me": conf,
-        "what_i_ran": "tools/finalize_seeds.py -> tools/eval_seeded.sh <this dir> <result dir> all  (scratch copy of /repo + patch: demo.sh on the changed and on the unchanged tree, tools/run_repo_tests.sh on the changed tree, every check's quick tier with VERIF_REPO pointing at the copy); the official procedure (git -C /repo apply, run, git -C /repo checkout -- .) gives the same builds because the harness is built from a content hash of the tree",
+        "what_i_ran": "tools/finalize_seeds.py -> tools/eval_seeded.sh <this dir> <result dir> all  (scratch copy of /repo + patch: demo.sh on the changed and on the unchanged tree, tools/run_repo_tests.sh on the changed tree, the quick tier of the target check and of the checks with an adjacent subject (all 20 with SEED_ALL_CHECKS=1) with VERIF_REPO pointing at the copy); the official procedure (git -C /repo apply, run, git -C /repo checkout -- .) gives the same builds because the harness is built from a content hash of the tree",
         "checks_quick_tier": checks,
         "detected_by": sorted(k for k, v in checks.items() if v["exit"] == 1),
         "target_check_detects": checks.get(prop, {}).get("exit") == 1,
